@@ -159,6 +159,7 @@ func negDivSeen(x asm.Expr, val func(name string) *big.Int) (v *big.Int, seen bo
 }
 
 func runC07(c *Ctx) {
+	defer withDisturb(c)()
 	runPinned(c, "C07")
 	n := int64(240000)
 	if c.Thorough() {
@@ -264,7 +265,14 @@ func runC07(c *Ctx) {
 			p.Items = append(p.Items, dat())
 		default: // ;assert
 			kind = "assert"
-			p.Asserts = []asm.Expr{e1}
+			if !useLabels && r.Chance(1, 3) {
+				// the assert line sits inside a FOR/ROF body: it counts when the block is expanded (1 or 2 times) and
+				// vanishes with the body when the count is 0
+				p.Items = append(p.Items, &asm.For{Counter: "zzc", Count: asm.Lit{V: r.Intn(3)}, Asserts: []asm.Expr{e1}, Body: []asm.Item{dat()}})
+				c.Inc("asserts_inside_for_bodies")
+			} else {
+				p.Asserts = []asm.Expr{e1}
+			}
 			p.Items = append(p.Items, dat())
 		}
 		st := &asm.Style{R: r, Spacing: r.Intn(3), Case: r.Intn(3), WithEnd: r.Bool()}
@@ -287,7 +295,9 @@ func runC07(c *Ctx) {
 		}
 		wd, err, pm := compile(text, gc)
 		c.Inc("expressions_" + kind)
-		cs := func() interface{} { return mkAsmCase(gc, text, mn, fmt.Sprintf("probe=%s expected-error=%v", kind, merr)) }
+		cs := func() interface{} {
+			return mkAsmCase(gc, text, mn, fmt.Sprintf("probe=%s expected-error=%v", kind, merr))
+		}
 		if pm != "" {
 			c.Violate("C07:panic:"+panicSite(pm), pm, cs())
 			return
